@@ -63,7 +63,7 @@ def gen_case(rnd):
     P = rnd.choice([6, 8, 12])
     kinds = [rnd.choice(["hmc", "rwmh"]) for _ in range(n)]
     seeds = [rnd.randrange(1 << 20) for _ in range(n)]
-    im_mode = rnd.choice(["none", "shared", "list"])
+    im_mode = rnd.choice(["none", "shared", "list", "in-kwargs"])
     kw_mode = rnd.choice(["none", "shared", "list"])
     ims = [[rnd.randint(-8, 8) / 8.0 for _ in range(d)] for _ in range(n)]
     kws = []
@@ -97,10 +97,18 @@ def run_case(c, wd, idx):
             pf = os.path.join(wd, f"prior_{idx}.h5")
             samplers[0].sample(pf, posteriors[0], proposals=4, overwrite_existing_file=True, disable_progressbar=True)
             prior_files[0] = (pf, hashlib.sha256(open(pf, "rb").read()).hexdigest())
-        im = None if c["im_mode"] == "none" else (col(c["ims"][0]) if c["im_mode"] == "shared" else [col(v) for v in c["ims"]])
+        im = None if c["im_mode"] in ("none", "in-kwargs") else (col(c["ims"][0]) if c["im_mode"] == "shared" else [col(v) for v in c["ims"]])
         kw = None if c["kw_mode"] == "none" else (dict(c["shared_kw"]) if c["kw_mode"] == "shared" else [dict(k) for k in c["kws"]])
         if kw is None:
             kw = {"disable_progressbar": True}       # keep the terminals quiet; still the shared-dictionary path
+        if c["im_mode"] == "in-kwargs":
+            # the starting models travel as ordinary keyword arguments (all chains, or all but the last), the controller's own
+            # initial_model parameter stays at its default
+            if isinstance(kw, list):
+                for i in range(n if n == 1 else n - 1):
+                    kw[i]["initial_model"] = col(c["ims"][i])
+            else:
+                kw["initial_model"] = col(c["ims"][0])
         before = [snapshot(s) for s in samplers]
         refs = [copy.deepcopy(s) for s in samplers]
         files = [os.path.join(wd, f"par_{idx}_{i}.h5") for i in range(n)]
@@ -127,8 +135,9 @@ def run_case(c, wd, idx):
             chain_im = None if im is None else (im[i] if isinstance(im, list) else im)
             chain_kw = dict(kw[i]) if isinstance(kw, list) else dict(kw)
             rf = os.path.join(wd, f"ref_{idx}_{i}.h5")
-            refs[i].sample(rf, posteriors[i], initial_model=None if chain_im is None else chain_im.copy(), proposals=c["P"],
-                           overwrite_existing_file=True, **chain_kw)
+            if "initial_model" not in chain_kw:
+                chain_kw["initial_model"] = None if chain_im is None else chain_im.copy()
+            refs[i].sample(rf, posteriors[i], proposals=c["P"], overwrite_existing_file=True, **chain_kw)
             try:
                 a, aa = read_file(files[i])
                 b, ba = read_file(rf)
@@ -170,6 +179,10 @@ def run(tier, seed):
                     while len(c[key]) < c["n"]:
                         c[key].append(copy.deepcopy(c[key][0]))
                 c["kws"][1] = dict(c["kws"][1], stepsize=0.9)
+            if i == 2:
+                c["im_mode"] = "in-kwargs"
+                if c["kw_mode"] == "none":
+                    c["kw_mode"] = "list"
             if i == 1 or (i % 9 == 5):
                 # shapes that coincide: as many chains as dimensions, one shared (d, 1) starting model for all of them
                 while not (c["n"] >= 2 and c["d"] == c["n"]):
